@@ -80,6 +80,11 @@ def make_signal(rng, nprng, cls=None, L=None):
     dtype = np.dtype((np.complex64 if single else np.complex128) if cplx else (np.float32 if single else np.float64))
     layout = rng.choice(['contiguous', 'strided', 'fortran', 'offset'])
     buf = make_buffer(rng, nprng, (L,) + tuple(ss), dtype, layout)
+    if rng.random() < 0.25:
+        # flagged dropouts: a few NaN / +-Inf samples (an operation that 'cleans' them in place changes the caller's buffer)
+        for _ in range(rng.randint(1, 4)):
+            ix = tuple(rng.randrange(n) for n in buf.shape)
+            buf[ix] = rng.choice([np.nan, np.inf, -np.inf])
     rate = (rng.choice([1.0, 2.5, 1e3, 1e6]) * u.Hz * rng.choice([1, 1000])).to(rng.choice([u.Hz, u.kHz, u.MHz]))
     start = Time('2021-03-04T05:06:07', precision=9) + rng.random() * u.s if rng.random() < 0.7 else None
     kw = dict(sample_rate=rate, start_time=start, meta=rng.choice([None, {'a': [1, 2, {'b': 3}], 'name': 'x'}]))
